@@ -189,6 +189,13 @@ func runC14(c *ctx) error {
 					pick = spellings[1+rng.Intn(len(spellings)-1)]
 				}
 				s2.Matrix = pick
+			} else if len(m.Adjustments) == 0 {
+				// a matrix with dimensions: no adjustments is no adjustments, nil or empty
+				if m.Adjustments == nil {
+					m.Adjustments = pipeline.MatrixAdjustments{}
+				} else {
+					m.Adjustments = nil
+				}
 			}
 			var pe map[string]string
 			if len(penv) == 0 {
